@@ -5,6 +5,7 @@ import (
 	"math/rand"
 	"strconv"
 	"sync"
+	"sync/atomic"
 
 	"github.com/kubewharf/kubegateway/pkg/ratelimiter/util"
 
@@ -190,7 +191,16 @@ func bucketOf(cs *Case, impl *implRun) (nontrivial bool, bucket string) {
 	if !cs.Wf {
 		wf = "/malformed"
 	}
-	return faults > 0 || impl.Crashed || restart, fmt.Sprintf("%s/%s%s%s", mode, f, cr, wf)
+	if impl.Windows > 0 {
+		cr += "/call-inside-flush"
+	}
+	if impl.Deferred > 0 {
+		cr += "/call-waited-for-flush"
+	}
+	if impl.Unopened > 0 {
+		cr += "/window-not-opened"
+	}
+	return faults > 0 || impl.Crashed || restart || impl.Windows+impl.Deferred > 0, fmt.Sprintf("%s/%s%s%s", mode, f, cr, wf)
 }
 
 func countDetails(c *rig.Ctx, cs *Case, impl *implRun) {
@@ -238,10 +248,6 @@ func shrink(c *rig.Ctx, cs Case, class string) Case {
 
 // evalCase runs a case without recording anything.
 func evalCase(c *rig.Ctx, cs Case) *failure {
-	if cs.Kind == "probe" {
-		f, _ := evalProbe(c, cs)
-		return f
-	}
 	f, _ := evalSeq(c, cs)
 	return f
 }
@@ -257,16 +263,10 @@ func evaluate(c *rig.Ctx, cases []Case) {
 		go func() {
 			defer wg.Done()
 			for cs := range ch {
-				if c.NFailures() >= 5 {
+				if unexpected.Load() >= 5 {
 					continue
 				}
-				var f *failure
-				var impl *implRun
-				if cs.Kind == "probe" {
-					f, impl = evalProbe(c, cs)
-				} else {
-					f, impl = evalSeq(c, cs)
-				}
+				f, impl := evalSeq(c, cs)
 				c.Trace()
 				if impl != nil {
 					nt, b := bucketOf(&cs, impl)
@@ -280,6 +280,15 @@ func evaluate(c *rig.Ctx, cases []Case) {
 					c.Case(rig.Canon(cs), true, "failed", nil)
 				}
 				if f != nil {
+					c.Count("failure:" + f.class)
+					if f.class == classRacedAck {
+						// a recorded finding: one minimised witness is enough, and it does not stop the search
+						if racedSeen.Add(1) > 1 {
+							continue
+						}
+					} else {
+						unexpected.Add(1)
+					}
 					small := shrink(c, cs, f.class)
 					f2 := evalCase(c, small)
 					if f2 == nil || f2.class != f.class {
@@ -296,6 +305,8 @@ func evaluate(c *rig.Ctx, cases []Case) {
 	close(ch)
 	wg.Wait()
 }
+
+var unexpected, racedSeen atomic.Int32
 
 func generate(c *rig.Ctx) {
 	n := c.Budget(1200, 30000)
@@ -318,7 +329,7 @@ func generate(c *rig.Ctx) {
 // single-fault position x EVERY fault kind, each of them crashed at EVERY API call.
 func exhaustive(c *rig.Ctx) {
 	lists := c.Budget(0, 250)
-	for i := 0; i < lists && c.NFailures() < 5; i++ {
+	for i := 0; i < lists && unexpected.Load() < 5; i++ {
 		base := genCase(c.Rng, 6)
 		base.Wf = true
 		base.Script = nil
